@@ -21,8 +21,11 @@ def build(bdir):
     return vlib.build_prog(bdir, "matrix_driver", DRIVER_SRC, objs, wrap=True)
 
 
-def cost(ex):
-    return sum(len(ln) for ln in ex) + 40 * len(ex)
+WEIGHT = {"block-chaining": 40}      # TLC cost per character of command text, relative (big matrices are expensive to project)
+
+
+def cost(ex, fam=None):
+    return (sum(len(ln) for ln in ex) + 40 * len(ex)) * WEIGHT.get(fam, 1)
 
 
 def split(execs, nchunks):
@@ -30,10 +33,10 @@ def split(execs, nchunks):
     nchunks = max(1, min(nchunks, len(execs)))
     chunks = [[] for _ in range(nchunks)]
     sizes = [0] * nchunks
-    for item in sorted(execs, key=lambda e: cost(e[1]), reverse=True):
+    for item in sorted(execs, key=lambda e: cost(e[1], e[0]), reverse=True):
         i = sizes.index(min(sizes))
         chunks[i].append(item)
-        sizes[i] += cost(item[1])
+        sizes[i] += cost(item[1], item[0])
     return [c for c in chunks if c]
 
 
